@@ -467,8 +467,6 @@ def call(pe, name, args, kwargs, node):
     if isinstance(v, Obj):
       return ClassRef(v.cls)
     return Ext("<type>")
-  if name == "round":
-    return unary(pe, "round", args[0])
   if name in EXC_NAMES:
     return Opaque("exception " + name)
   if name == "id":
@@ -501,6 +499,17 @@ def call(pe, name, args, kwargs, node):
     return is_num(args[0])
 
   # ------------------------------------------------------------- tensors
+  if name in ("round", "np.round", "np.around"):
+    nd = arg(args, kwargs, 1, "ndigits" if name == "round" else "decimals")
+    if nd is not None and not isinstance(nd, Tensor) and fr(nd) != 0:
+      # round(x, n) == round(x * 10**n) / 10**n
+      scale = Fraction(10) ** int(fr(nd))
+      v = args[0]
+      if isinstance(v, Tensor):
+        inner = unary(pe, "round", T(pe, ("mul", v.term, C(scale)), v.shape))
+        return T(pe, ("div", inner.term, C(scale)), v.shape)
+      return unary(pe, "round", fr(v) * scale) / scale
+    return unary(pe, "round", args[0])
   if name in UNARY:
     return unary(pe, UNARY[name], args[0])
   if name in IDENTITY:
